@@ -1371,3 +1371,134 @@ func aliasFreeType(t types.Type, d int) bool {
 	}
 	return false
 }
+
+// ---- rules added after seed round r/s ----
+
+// ruleReadersDecodeRunes (PV-API): the hand-written readers of the pattern and JSON-path
+// languages read their input rune by rune: a (rune, size) reader step returns end-of-input or both
+// results of utf8.DecodeRuneInString (a byte-wise reader turns every non-ASCII literal into
+// mojibake that never matches the line).
+func ruleReadersDecodeRunes(r *Run) {
+	p := r.P
+	o := r.Ob("PV-API", "pattern/jsonexpr reader step", "a reader step that returns (rune, size) returns the decoded rune and its byte length from utf8.DecodeRuneInString, or end of input")
+	n, good := 0, true
+	for _, fn := range p.SrcFuncs() {
+		pk := pkgPathOf(fn)
+		if pk != modPath+"/internal/logql/logqlengine/logqlpattern" && pk != modPath+"/internal/logql/logqlengine/jsonexpr" {
+			continue
+		}
+		res := fn.Signature.Results()
+		if res.Len() != 2 {
+			continue
+		}
+		b0, ok0 := res.At(0).Type().Underlying().(*types.Basic)
+		b1, ok1 := res.At(1).Type().Underlying().(*types.Basic)
+		if !ok0 || !ok1 || b0.Kind() != types.Int32 || b1.Kind() != types.Int {
+			continue
+		}
+		n++
+		for _, ret := range returnsOf(fn) {
+			if len(ret.Results) != 2 {
+				continue
+			}
+			if _, isC := ret.Results[0].(*ssa.Const); isC {
+				if k, ok := constInt(ret.Results[1]); ok && k == 0 {
+					continue // end of input
+				}
+			}
+			c0, i0, ok0 := extractOf(unspill(ret.Results[0]))
+			c1, i1, ok1 := extractOf(unspill(ret.Results[1]))
+			if ok0 && ok1 && c0 == c1 && i0 == 0 && i1 == 1 {
+				if pk, nm := calleePkgName(c0); pk == "unicode/utf8" && (nm == "DecodeRuneInString" || nm == "DecodeRune") {
+					continue
+				}
+			}
+			good = false
+			o.Fail(r.pos(ret.Pos()), "%s returns (%s, %s): not a rune decoded from the input with its length", shortFuncName(fn), describe(ret.Results[0], 0), describe(ret.Results[1], 0))
+		}
+	}
+	if n < 2 {
+		o.Fail("-", "only %d reader step function(s) found in logqlpattern/jsonexpr", n)
+		return
+	}
+	if good {
+		o.OK("%d reader steps decode runes", n)
+	}
+}
+
+// rulePatternLiteralAnchored (PV-API): a literal part of a pattern must be the next thing in the
+// line: Match tests the part it is looking at with a prefix function; searching (Index, Cut,
+// Contains) is used only to find where the *following* part begins.
+func rulePatternLiteralAnchored(r *Run) {
+	p := r.P
+	const rel = "internal/logql/logqlengine/logqlpattern"
+	o := r.Ob("PV-API", "logqlpattern.Match literal", "a literal part is consumed as a prefix of the remaining input (CutPrefix/HasPrefix/TrimPrefix of the current part's text); substring search is applied only to the next part's text, to delimit a capture")
+	fn := p.Func(rel, "Match")
+	if fn == nil {
+		o.Fail("-", "Match not found")
+		return
+	}
+	nPrefix, good := 0, true
+	for _, g := range funcGroup(fn) {
+		loops := rangeIndexLoops(g)
+		for _, c := range callsIn(g) {
+			call, ok := c.(*ssa.Call)
+			if !ok {
+				continue
+			}
+			pk, nm := calleePkgName(call)
+			if pk != "strings" || len(call.Call.Args) < 2 {
+				continue
+			}
+			isPrefix := nm == "CutPrefix" || nm == "HasPrefix" || nm == "TrimPrefix"
+			isSearch := nm == "Index" || nm == "Contains" || nm == "Cut" || nm == "LastIndex" || nm == "SplitN" || nm == "Split" || nm == "IndexByte"
+			if !isPrefix && !isSearch {
+				continue
+			}
+			f, base, ok := loadOfField(call.Call.Args[1])
+			if !ok || f != "Value" {
+				continue
+			}
+			// is the needle the current ranged part?
+			current := false
+			base = unspill(base)
+			if al, ok := base.(*ssa.Alloc); ok {
+				for _, st := range storesTo(al) {
+					if u, ok := st.Val.(*ssa.UnOp); ok {
+						for _, l := range loops {
+							if isIndexOf(u.X, l) {
+								current = true
+							}
+						}
+					}
+				}
+			}
+			if u, ok := base.(*ssa.UnOp); ok {
+				for _, l := range loops {
+					if isIndexOf(u.X, l) {
+						current = true
+					}
+				}
+			}
+			for _, l := range loops {
+				if isIndexOf(base, l) {
+					current = true
+				}
+			}
+			if current && isPrefix {
+				nPrefix++
+			}
+			if current && isSearch {
+				good = false
+				o.Fail(r.pos(call.Pos()), "the current part's text is looked for with strings.%s: a literal matches anywhere in the rest of the line instead of at its start", nm)
+			}
+		}
+	}
+	if nPrefix == 0 && good {
+		good = false
+		o.Fail(r.pos(fn.Pos()), "no prefix test of the current literal part found")
+	}
+	if good {
+		o.OK("%d prefix test(s) on the current part; searches only on the next part", nPrefix).At(r.pos(fn.Pos()))
+	}
+}
